@@ -170,6 +170,39 @@ def r3b_empty_tables(rep, facts):
     rep.check(R, 'overrides', n >= want, f'{n} overrides of visit_table_mut evaluated', f'only {n} overrides of VisitMut::visit_table_mut found (toml_edit::ser::pretty::Pretty and, with toml\'s display feature, toml::fmt::DocumentFormatter expected)')
 
 
+def r2c_key_stash(rep, facts, rid='C07/R2c'):
+    R = rep.rule(rid, 'map entries are written under their own key: every SerializeMap::serialize_key that stashes the key for the following serialize_value overwrites the '
+                 'stash unconditionally (`self.key = Some(..)`): a skipped `None` value leaves its key behind, and a stash that is only filled when empty would give that '
+                 'stale key to the next entry', floor=2)
+    n = 0
+    for imp in facts.impls:
+        if imp.get('trait') != 'serde::ser::SerializeMap':
+            continue
+        d = facts.impl_method(imp, 'serialize_key')
+        if not d or not facts.has_body(d):
+            continue
+        b = facts.body(d)
+        selfn = [p_['name'] for p_ in b.get('params', []) if p_.get('k') == 'p_bind'][0]
+        # forwarders (to an inner serializer / per variant) and the date-time stub are judged where they forward to
+        if any(x.get('k') == 'mcall' and x.get('name') == 'serialize_key' for x in walk(b['body'])) or \
+                any(x.get('k') == 'call' and 'panic' in (peel(x.get('f', {})).get('path') or '') for x in walk(b['body'])):
+            continue
+        from .shared import conditions_above
+        stores = [x for x in walk(b['body']) if x.get('k') == 'assign' and peel(x['lhs']).get('k') == 'field' and peel(peel(x['lhs'])['base']).get('path') == selfn]
+        n += 1
+        if not stores:
+            weak = sorted({x.get('name') for x in walk(b['body']) if x.get('k') == 'mcall' and x.get('name') in ('get_or_insert', 'get_or_insert_with', 'or', 'or_else', 'xor', 'replace', 'insert')})
+            rep.bad(R, f'{imp.get("self_ty")}|serialize_key', f'`{d}` does not assign the key to its stash ({", ".join(weak) or "no store found"}): when the previous value was skipped '
+                    f'(`None`), the next entry is written under the previous entry\'s key and its own key is lost', facts.loc(b))
+            continue
+        field = peel(stores[0]['lhs']).get('name')
+        cond = [c for st in stores for c in conditions_above(b['body'], st) if any(y.get('k') == 'field' and y.get('name') == field for y in walk(c))]
+        some = all(any((y.get('path') or '').endswith('Option::Some') for y in walk(st['rhs'])) for st in stores)
+        rep.check(R, f'{imp.get("self_ty")}|serialize_key', not cond and some, f'self.{field} = Some(..)', f'`{d}` fills `self.{field}` only under a test of the stash itself: a key left by a skipped '
+                  f'`None` value is then kept for the next entry', facts.loc(b))
+    rep.check(R, 'count', n >= 2, f'{n} stashing serialize_key implementations', f'only {n} stashing implementations of SerializeMap::serialize_key found')
+
+
 def r4_container_typing(rep, facts):
     R = rep.rule('C07/R4', 'library code stores only Item::Value (or the placeholder Item::None) into Array::values and InlineTable::items', floor=3)
     # writers of Array.values / pushes
@@ -254,6 +287,7 @@ def rules(rep, facts):
     r1_outcomes(rep, facts)
     r2_none_policy(rep, facts)
     r2b_flag_locality(rep, facts)
+    r2c_key_stash(rep, facts)
     r7_forwarding(rep, facts)
     r3_promotion(rep, facts)
     r3b_empty_tables(rep, facts)
@@ -262,6 +296,8 @@ def rules(rep, facts):
     if 'toml' in facts.crates:
         from .rules_c13 import r7_value_passes
         r7_value_passes(rep, facts, rid='C07/R9')
+    from .rules_c11 import r7_widening
+    r7_widening(rep, facts, rid='C07/R10')
     if 'toml' in facts.crates and facts.has_method('serde::ser::Serialize', 'toml::value::Value', 'serialize'):
         from .rules_c17 import r1_passes
         r1_passes(rep, facts, rid='C07/R8')
